@@ -14,6 +14,7 @@ A `desc` mismatch re-bases the model on the library's state, so one defect gives
 """
 import collections, hashlib, json, os, re, shutil
 from . import c05_reduce
+from . import c05_ops
 
 LEVEL = "proof"
 
@@ -64,6 +65,7 @@ def run(ctx):
     ctx.ensure_ppl()
     broken = ctx.prove(["PPLV.Props.C05"])
     c05_reduce.run(ctx)          # stage 2: Grid::simplify / Grid::conversion models, own harness and driver
+    c05_ops.run(ctx)             # stage 3: the Grid class itself (raw state of every operation), own harness and driver
     if ctx.tier == "thorough":
         broken += ctx.leanchecker(["PPLV.Props.C05"])
     drv = ctx.ensure_pplv("pplv_grid")
@@ -324,7 +326,7 @@ def run(ctx):
     def latent(hist, line, slot):
         """operations on the whole lineage whose known defect is a latent corruption of the representation
         (the descriptions still print a correct set, later operations or queries go wrong)"""
-        return [(n, t) for (n, t) in full_lineage(hist, line, slot) if api_of(t) in LATENT]
+        return [(n, t) for (n, t) in full_lineage(hist, line, slot) if api_of(t) in LATENT or " gsdim=0" in t]
 
     def producer_of_empty(hist, ln, s):
         """an empty reference grid stays empty under every mutator: the operations back to the one that produced it"""
@@ -377,6 +379,33 @@ def run(ctx):
                     tags.append("modulus_ne_0_and_var_coefficient_ne_denominator")
             except ValueError:
                 pass
+        if site == "add_recycled_grid_generators" and " gsdim=0" in t and state not in ("EMPTY", None):
+            # latent: the rows keep different divisors, the next minimization goes wrong.  The divisor of the
+            # receiver is read before the operation if its generators were up to date, else from the raw
+            # generators of the copy taken right after it (mixed divisors = the broken invariant)
+            mixed = False
+            for (n2, t2) in hist.lines:
+                if n2 <= n:
+                    continue
+                tt2 = t2.split()
+                if len(tt2) > 3 and tt2[0] == "obs" and tt2[1] == str(slot_of(t)) and tt2[2] == "cgens":
+                    toks = tt2[4:]
+                    try:
+                        cnt, pos, divs = int(toks[0]), 1, set()
+                        for _ in range(cnt):
+                            kind, nn = int(toks[pos]), int(toks[pos + 1])
+                            d = toks[pos + 2 + nn]
+                            if kind != 0:
+                                divs.add(d)
+                            pos += 3 + nn
+                        mixed = len(divs) > 1
+                    except (ValueError, IndexError):
+                        pass
+                    break
+                if tt2 and tt2[0] == "op" and len(tt2) > 1 and tt2[1] == str(slot_of(t)):
+                    break
+            if mixed or div_ne_1(stb, state):
+                tags.append("zero_dim_generator_system_and_divisor_ne_1")
         if site == "difference_assign":
             if div_ne_1(stb, state):
                 tags.append("point_divisor_ne_1")
